@@ -5,6 +5,7 @@ mod rustharness;
 mod rustcheck;
 mod inproc;
 mod c12;
+mod c08;
 pub mod compile;
 
 fn opt(args: &[String], k: &str) -> Option<String> {
@@ -72,6 +73,7 @@ fn main() {
             match prop.as_str() {
                 "C01" | "C02" | "C03" | "C04" | "C05" | "C06" | "C15" | "C17" | "C18" => rustcheck::run(&prop, &tier, seed),
                 "C12" => c12::run(&tier, seed),
+                "C08" => c08::run(&tier, seed),
                 _ => {
                     eprintln!("unknown property {prop}");
                     2
